@@ -300,7 +300,10 @@ static int g_ent_calls;
 static unsigned char g_ent_sub[256];
 static size_t g_ent_sublen;
 
-#ifndef VW_SYS
+#if defined(VW_SYS) || defined(VW_SO)
+# define VW_NOWRAP 1
+#endif
+#ifndef VW_NOWRAP
 
 void *__real_malloc (size_t);
 void *__real_realloc (void *, size_t);
@@ -501,7 +504,7 @@ led_counts (long *heap, long *maps)
 
 #define REAL_MALLOC(n) __real_malloc (n)
 #define REAL_FREE(p) __real_free (p)
-#else /* VW_SYS */
+#else /* VW_NOWRAP */
 static struct lent { int dummy; } *led_find_dummy;
 #define REAL_MALLOC(n) malloc (n)
 #define REAL_FREE(p) free (p)
@@ -602,6 +605,10 @@ static struct
 /* <unistd.h> declares crypt() with __nonnull; the library documents EINVAL
    for NULL arguments, so call through a pointer that carries no attribute.  */
 static char *(*volatile crypt_fp) (const char *, const char *) = crypt;
+/* In the shared-library flavour the sanitizer runtime interposes crypt_r and
+   runs strlen() on the arguments itself; bind the library's own definition by
+   version (main) so that NULL arguments reach the code under test.  */
+static char *(*volatile crypt_r_fp) (const char *, const char *, struct crypt_data *) = crypt_r;
 
 static void
 do_crypt_call (void)
@@ -610,7 +617,7 @@ do_crypt_call (void)
   switch (cc.entry)
     {
     case 0: cc.ret = crypt_fp (cc.phrase, cc.setting); break;
-    case 1: cc.ret = crypt_r (cc.phrase, cc.setting, cc.data); break;
+    case 1: cc.ret = crypt_r_fp (cc.phrase, cc.setting, cc.data); break;
     case 2: cc.ret = crypt_rn (cc.phrase, cc.setting, cc.data, cc.size); break;
     case 3: cc.ret = crypt_ra (cc.phrase, cc.setting, cc.ra_data, cc.ra_size); break;
     }
@@ -824,7 +831,7 @@ cmd_crypt (int argc, char **argv)
       out_printf (" sk=%ld su=%ld", hits, pstack_used ());
     }
   if (scan_on) out_printf (" mh=%ld nn=%zu", g_munmap_hits, n_needles);
-#ifndef VW_SYS
+#ifndef VW_NOWRAP
   if (g_ledger_on)
     {
       long h, m;
@@ -908,7 +915,7 @@ cmd_gensalt (int argc, char **argv)
       out_printf (" er=%ld su=%ld", resid, pstack_used ());
     }
   out_printf (" gc=%d gn=%zu", g_ent_calls, g_ent_len);
-#ifndef VW_SYS
+#ifndef VW_NOWRAP
   if (g_ledger_on)
     {
       long h, m;
@@ -1116,6 +1123,89 @@ cmd_mt (int argc, char **argv)
 
 /* ------------------------------------------------------------------ */
 
+#ifdef VW_SO
+#include <dlfcn.h>
+/* compat-only symbols of the shared library, bound by version */
+static void *
+compat_sym (const char *name)
+{
+  static const char *vers[] = { "XCRYPT_2.0", "GLIBC_2.2.5", "GLIBC_2.0", "OW_CRYPT_1.0", 0 };
+  for (int i = 0; vers[i]; i++)
+    {
+      void *p = dlvsym (RTLD_DEFAULT, name, vers[i]);
+      if (p) return p;
+    }
+  return 0;
+}
+
+static void
+cmd_compat (int argc, char **argv)
+{
+  /* compat setkey <hex64> | encrypt <hex64> <edflag> | setkey_r <slot> <hex64>
+     | encrypt_r <slot> <hex64> <edflag> | fcrypt <phrase> <setting> */
+  if (argc < 3) { out_printf ("err compat args"); return; }
+  const char *fn = argv[1];
+  unsigned char *b = 0, *b2 = 0;
+  if (!strcmp (fn, "setkey"))
+    {
+      void (*f) (const char *) = compat_sym ("setkey");
+      long l = hexdecode (argv[2], &b);
+      if (!f || l != 64) { out_printf ("err setkey"); free (b); return; }
+      errno = 0; f ((char *) b);
+      out_printf ("ok e=%d", errno);
+    }
+  else if (!strcmp (fn, "encrypt") && argc >= 4)
+    {
+      void (*f) (char *, int) = compat_sym ("encrypt");
+      long l = hexdecode (argv[2], &b);
+      if (!f || l != 64) { out_printf ("err encrypt"); free (b); return; }
+      char *blk = malloc (64); memcpy (blk, b, 64);
+      errno = 0; f (blk, atoi (argv[3]));
+      out_printf ("ok e=%d", errno); out_hex ("b", blk, 64);
+      free (blk);
+    }
+  else if (!strcmp (fn, "setkey_r") && argc >= 4)
+    {
+      void (*f) (const char *, struct crypt_data *) = compat_sym ("setkey_r");
+      int si = atoi (argv[2]);
+      long l = hexdecode (argv[3], &b);
+      if (!f || l != 64 || si < 0 || si >= NSLOT || slots[si].size < CD_SIZE) { out_printf ("err setkey_r"); free (b); return; }
+      errno = 0; f ((char *) b, (struct crypt_data *) slots[si].obj);
+      out_printf ("ok e=%d", errno);
+    }
+  else if (!strcmp (fn, "encrypt_r") && argc >= 5)
+    {
+      void (*f) (char *, int, struct crypt_data *) = compat_sym ("encrypt_r");
+      int si = atoi (argv[2]);
+      long l = hexdecode (argv[3], &b);
+      if (!f || l != 64 || si < 0 || si >= NSLOT || slots[si].size < CD_SIZE) { out_printf ("err encrypt_r"); free (b); return; }
+      char *blk = malloc (64); memcpy (blk, b, 64);
+      errno = 0; f (blk, atoi (argv[4]), (struct crypt_data *) slots[si].obj);
+      out_printf ("ok e=%d", errno); out_hex ("b", blk, 64);
+      free (blk);
+    }
+  else if (argc >= 4)
+    {
+      /* two-string functions returning a string: fcrypt, xcrypt */
+      char *(*f) (const char *, const char *) = compat_sym (fn);
+      long l = hexdecode (argv[2], &b), l2 = hexdecode (argv[3], &b2);
+      char *p = exact_string (b, l), *st = exact_string (b2, l2);
+      if (!f) { out_printf ("err nosym"); }
+      else
+        {
+          errno = 0;
+          char *r = f (p, st);
+          out_printf ("ok r=%c e=%d", r ? 'S' : 'N', errno);
+          if (r) out_hex ("o", r, strnlen (r, 384)); else out_printf (" o=-");
+        }
+      free (p); free (st);
+    }
+  else
+    out_printf ("err compat fn");
+  free (b); free (b2);
+}
+#endif
+
 static void
 handle (char *line)
 {
@@ -1168,7 +1258,7 @@ handle (char *line)
         {
           s->ra_ptr = malloc ((size_t) bs);
           memset (s->ra_ptr, 0xC3, (size_t) bs);
-#ifndef VW_SYS
+#ifndef VW_NOWRAP
           if (g_ledger_on) led_add (s->ra_ptr, (size_t) bs, 'h', 'C');
 #endif
         }
@@ -1180,12 +1270,12 @@ handle (char *line)
       int si = atoi (argv[1]);
       struct slot *s = &slots[si];
       int known = -1;
-#ifndef VW_SYS
+#ifndef VW_NOWRAP
       if (g_ledger_on && s->ra_ptr) known = led_find (s->ra_ptr) != 0;
 #endif
       if (s->is_ra && s->ra_ptr && known != 0) free (s->ra_ptr);
       s->ra_ptr = 0; s->ra_size = 0;
-#ifndef VW_SYS
+#ifndef VW_NOWRAP
       long h = 0, m = 0;
       led_counts (&h, &m);
       out_printf ("ok known=%d heap=%ld maps=%ld lerr=%ld", known, h, m, g_ledger_errs);
@@ -1245,6 +1335,36 @@ handle (char *line)
       stack_mode = atoi (argv[1]);
       out_printf ("ok");
     }
+  else if (!strcmp (c, "gscrypt") && argc >= 6)
+    {
+      /* gscrypt <prefix> <count> <rbytes> <nrbytes> <phrase>: the documented
+         allowance crypt (phrase, crypt_gensalt (...)) without copying */
+      unsigned char *pb, *rb, *ph;
+      long pl = hexdecode (argv[1], &pb);
+      char *prefix = exact_string (pb, pl);
+      unsigned long count = strtoul (argv[2], 0, 0);
+      long rl = hexdecode (argv[3], &rb);
+      int nrbytes = atoi (argv[4]);
+      long hl = hexdecode (argv[5], &ph);
+      char *phrase = exact_string (ph, hl);
+      char *rbytes = 0;
+      if (rl >= 0) { rbytes = malloc (nrbytes > 0 ? (size_t) nrbytes : 0); if (nrbytes > 0) memcpy (rbytes, rb, (size_t) (rl < nrbytes ? rl : nrbytes)); }
+      g_inlib = 1;
+      errno = 0;
+      char *g = crypt_gensalt (prefix, count, rbytes, nrbytes);
+      char gcopy[256] = "";
+      if (g) snprintf (gcopy, sizeof gcopy, "%s", g);
+      char *h = g ? crypt_fp (phrase, g) : 0;
+      int e = errno;
+      g_inlib = 0;
+      out_printf ("ok r=%c e=%d", h ? 'S' : 'N', e);
+      if (g) out_hex ("g", gcopy, strlen (gcopy)); else out_printf (" g=-");
+      if (h) out_hex ("o", h, strnlen (h, 384)); else out_printf (" o=-");
+      free (pb); free (rb); free (ph); free (prefix); free (phrase); free (rbytes);
+    }
+#ifdef VW_SO
+  else if (!strcmp (c, "compat")) cmd_compat (argc, argv);
+#endif
   else if (!strcmp (c, "mtadd")) cmd_mtadd (argc, argv);
   else if (!strcmp (c, "mt")) cmd_mt (argc, argv);
   else if (!strcmp (c, "info"))
@@ -1263,6 +1383,14 @@ main (void)
   size_t cap = 0;
   (void) prng_state;
   signal (SIGPIPE, SIG_DFL);
+#ifdef VW_SO
+  {
+    void *p = dlvsym (RTLD_DEFAULT, "crypt", "XCRYPT_2.0");
+    if (p) crypt_fp = (char *(*) (const char *, const char *)) p;
+    p = dlvsym (RTLD_DEFAULT, "crypt_r", "XCRYPT_2.0");
+    if (p) crypt_r_fp = (char *(*) (const char *, const char *, struct crypt_data *)) p;
+  }
+#endif
   while (getline (&line, &cap, stdin) > 0)
     {
       if (!strncmp (line, "quit", 4)) break;
